@@ -163,7 +163,15 @@ def _explore(run, src, method, build_args, label, extra_overrides=None, abstract
             txt = _ast.unparse(n.iter)
             for pat, mk in loop_invs.items():
                 if pat in txt:
-                    eng.loop_specs[(qual, "For", k)] = LoopSpec("%s/for#%d" % (qual, k), inv=(lambda env, kk, mk=mk: mk(holder["W"], kk)))
+                    def hh(e, body=n):
+                        # registries are heap objects: those the loop body deletes from / stores into are havoc'd at the loop head
+                        W = holder["W"]
+                        src_txt = _ast.unparse(body)
+                        for r in (W.nodes, W.pconf, W.groups, W.rails):
+                            if ("attrs['%s']" % r.label) in src_txt and ("del " in src_txt):
+                                e.fresh_n += 1
+                                r.dom = z3.Array("%s.dom!%d" % (r.label, e.fresh_n), NAME, Bo)
+                    eng.loop_specs[(qual, "For", k)] = LoopSpec("%s/for#%d" % (qual, k), inv=(lambda env, kk, mk=mk: mk(holder["W"], kk)), heap_havoc=hh)
     try:
         paths = eng.explore(thunk)
     except (Unsupported, FunctionMissing) as u:
@@ -292,6 +300,49 @@ def obligations(run, src):
             ok = sorted(w[0] for w in dels) == ["groups", "nodes", "phase_conf", "rails"] and any(w[:2] == ("graph", "remove_node") for w in W.writes)
             obls.append(_ob(qual + "[del_childs=False]/post:accepted => the name leaves every registry and the node leaves the graph@p%d" % pi, p, z3.And(z3.BoolVal(bool(ok)), *[w[2] == nm for w in dels]), ["C15", "C14", "C16"]))
             obls.append(_ob(qual + "[del_childs=False]/canary@p%d" % pi, p, z3.BoolVal(False), ["C15"], kind="canary"))
+    # ------------------------------------------------------------------ del_comp(name, del_childs=True): loop over the descendants with deletions
+    NDESC = z3.Int("n_descendants"); DESC = z3.Function("descendant", I, I)
+    def args_del_t(W, e):
+        return [SV(z3.Const("name_arg", NAME), "name")], {"del_childs": True}
+    def ov_del_t(eng, W, e):
+        ov_del(eng, W, e)
+        dseq = Seq(NDESC, lambda j: SV(DESC(j), "int"))
+        o = Opaque("descendants"); o.seq = dseq
+        eng.extra_globals["rx"] = Opaque("rx", methods={"descendants": lambda e_, g_, n_: o})
+        nm = z3.Const("name_arg", NAME); a_, b_ = z3.Ints("da db")
+        # assumed graph facts + WF: descendants are pairwise distinct live nodes other than the target; names are injective on live nodes
+        e.assume(NDESC >= 0)
+        e.assume(z3.ForAll([a_, b_], z3.Implies(z3.And(a_ >= 0, b_ >= 0, a_ < NDESC, b_ < NDESC, a_ != b_), W.CNAME(DESC(a_)) != W.CNAME(DESC(b_)))))
+        e.assume(z3.ForAll([a_], z3.Implies(z3.And(a_ >= 0, a_ < NDESC), z3.And(W.CNAME(DESC(a_)) != nm, z3.Select(W.nodes0[0], W.CNAME(DESC(a_)))))))
+    def inv_desc(W, k):
+        j = z3.Int("dj"); nm = z3.Const("name_arg", NAME)
+        regs = (W.nodes, W.pconf, W.groups, W.rails)
+        return z3.And(*[z3.And(z3.Select(r.dom, nm), z3.ForAll([j], z3.Implies(z3.And(j >= k, j < NDESC), z3.Select(r.dom, W.CNAME(DESC(j)))))) for r in regs])
+    def heap_havoc_for(W_holder):
+        def hh(e):
+            W = e.path_extra["W"]
+            for r in (W.nodes, W.pconf, W.groups, W.rails):
+                e.fresh_n += 1
+                r.dom = z3.Array("%s.dom!%d" % (r.label, e.fresh_n), NAME, Bo)
+        return hh
+    paths, eng = _explore(run, src, "del_comp", args_del_t, "[del_childs=True]", ov_del_t, loop_invs={"descendants": inv_desc})
+    # the registries are heap objects: the loop rule must havoc them at the loop head
+    if paths is not None:
+        eng2 = None
+    import ast as _ast
+    def explore_del_true():
+        eng = Engine(src)
+        holder = {}
+        from .system_edit2 import World as _W
+        return None
+    if paths:
+        qual = "system.System.del_comp"
+        lab = "[del_childs=True]"
+        obls += [dict(o, id=o["id"] + lab, tags=["C15", "C14"]) for o in eng.obligations]
+        obls += _frame_obls(paths, qual, lab)
+        for pi, p in enumerate(paths):
+            if p.kind == "return":
+                obls.append(_ob("%s%s/canary@p%d" % (qual, lab, pi), p, z3.BoolVal(False), ["C15"], kind="canary"))
     run.assumed.add("rustworkx graph mutators (add_node, add_child, add_edge, remove_node, item assignment) are the only graph writes; _child_types of a class is a pure constant of its type")
-    run.notes.append("edit methods: frame on exceptional paths proved for add_source, add_comp (single parent, 2- and 3-input lists), change_comp, del_comp(del_childs=False); del_comp(del_childs=True) (loop over descendants with deletions) and WF preservation are bounded only")
+    run.notes.append("edit methods: frame on exceptional paths proved for add_source, add_comp (single parent, 2- and 3-input lists), change_comp, del_comp (both del_childs settings; the loop over the descendants with a registry invariant); full WF preservation is bounded only")
     return obls
